@@ -360,7 +360,10 @@ func (w *W) c03(groups [][]*driver.Bound) {
 						name string
 						b    []byte
 						o    driver.Outcome
-					}{{"MarshalBebop", e.marshal, e.oM}, {"EncodeBebop", e.stream, e.oS}} {
+					}{{"MarshalBebop", e.marshal, e.oM}, {"EncodeBebop", e.stream, e.oS}, {"MarshalBebopTo(reused buffer)", e.to, e.oT}} {
+						if en.b == nil && !en.o.Panicked {
+							continue // Size() unusable: C02 reports it
+						}
 						if en.o.Panicked || en.o.Err != nil {
 							w.report(fmt.Sprintf("C03|encode-fails|%s|%s|%s", en.name, b.Case.Class, failKind(en.o)), en.name+" failed: "+outcomeStr(en.o), ci)
 							continue
